@@ -742,7 +742,12 @@ pub fn generate(data: &[u16], o: &Opts) -> Script {
                         let dargs: String = (0..k).map(|j| format!("{} ", j)).collect();
                         let both = CV::List(vec![xv.clone(), v]);
                         (
-                            format!("(define (f{} {}x) (list x {}))\n(define {} (f{} {}{}))\n{}", name, dummies, e1, name, name, dargs, xn, name),
+                            // called by name (may be inlined), through apply, or as a first-class value
+                            match g.c.below(3) {
+                                0 => format!("(define (f{} {}x) (list x {}))\n(define {} (f{} {}{}))\n{}", name, dummies, e1, name, name, dargs, xn, name),
+                                1 => format!("(define (f{} {}x) (list x {}))\n(define {} (apply f{} (list {}{})))\n{}", name, dummies, e1, name, name, dargs, xn, name),
+                                _ => format!("(define (f{} {}x) (list x {}))\n(define {} ((car (list f{})) {}{}))\n{}", name, dummies, e1, name, name, dargs, xn, name),
+                            },
                             Expect::Value(both.canon()),
                             Some(both),
                         )
